@@ -325,7 +325,8 @@ spif_tok_eval(spif_tok_t self)
                 pstr++;
             } else {
                 /* Handle any backslashes that are escaping delimiters or quotes. */
-                if ((*pstr == self->escape) && (IS_DELIM(*(pstr + 1)) || IS_QUOTE(*(pstr + 1)))) {
+                if ((*pstr == self->escape) && *(pstr + 1)
+                    && (IS_DELIM(*(pstr + 1)) || IS_QUOTE(*(pstr + 1)))) {
                     /* Incrementing pstr here moves us past the backslash so that the line
                        below will copy the next character to the new token, no questions asked. */
                     pstr++;
